@@ -25,7 +25,8 @@ from vx import gen, run  # noqa: E402
 from vx.rsparse import ExtractError, GuardEscape, extract_fn, mask  # noqa: E402
 
 REPO = os.environ.get("VERIF_REPO", "/repo")
-BUILD = os.path.join(ROOT, "build")
+BUILD = os.environ.get("VERIF_BUILD") or os.path.join(ROOT, "build")
+EVID = os.environ.get("VERIF_EVIDENCE") or os.path.join(ROOT, "evidence")
 UNITS = json.load(open(os.path.join(ROOT, "contracts", "units.json")))
 ASSUME_RX = re.compile(r"external_body|\bassume\s*\(|\badmit\s*\(|assume_specification|exec_allows_no_decreases_clause|external_type_specification|\bexternal\b\]")
 
@@ -480,8 +481,8 @@ def evidence(dec, level_other=False):
         "wall_s": round(dec["wall"], 2),
         "violations": len(dec["violations"]),
     }
-    os.makedirs(os.path.join(ROOT, "evidence"), exist_ok=True)
-    json.dump(ev, open(os.path.join(ROOT, "evidence", "%s.json" % prop), "w"), indent=1)
+    os.makedirs(EVID, exist_ok=True)
+    json.dump(ev, open(os.path.join(EVID, "%s.json" % prop), "w"), indent=1)
 
 
 def main():
